@@ -53,7 +53,7 @@ def run(ctx):
     required = ["fact_sweep_threshold", "fact_transaction_helper_shape", "fact_rollback_deletes_created_did",
                 "fact_nuts_not_found_is_uncommitted", "fact_web_commit_cannot_fail", "fact_version_is_latest_plus_one",
                 "fact_sweep_handles_whole_transaction", "fact_deactivation_renders_as_published", "fact_rollback_loop_wiring", "fact_method_manager_wiring",
-                "fact_latest_is_highest_version", "fact_create_checks_subject_inside_transaction", "fact_change_records_saved_inside_first_transaction", "fact_create_or_update_always_inserts", "old_iscommitted_blocks_sweep", "old_rollback_blocks_retry", "old_sweep_splits_transaction"]
+                "fact_latest_is_highest_version", "fact_create_checks_subject_inside_transaction", "fact_change_records_saved_inside_first_transaction", "fact_create_or_update_always_inserts", "fact_create_stores_final_subject", "old_iscommitted_blocks_sweep", "old_rollback_blocks_retry", "old_sweep_splits_transaction"]
     required += REQUIRED_DEEP
     for r in required:
         if not any(t.endswith("Props." + r) for t in thms):
@@ -139,6 +139,8 @@ def run(ctx):
             if op["op"] == "do":
                 stats["op:" + op["kind"]] += 1
                 stats["fault:" + op.get("fault", "none") + (str(op.get("k", 0)) if op.get("fault") in ("stop", "logerr", "logstop") else "")] += 1
+                if op.get("kind") == "createleg" and op.get("order"):
+                    stats["legacy-create:commit-order-" + "-".join(op["order"])] += 1
                 stats["result:" + o[0].split(":")[0] + (":" + o[0].split(":")[1] if ":" in o[0] else "")] += 1
             # O1 all DIDs of a subject move together; O7 one DID per method
             for sname, s in o[3].items():
@@ -151,7 +153,7 @@ def run(ctx):
                     if len(ms) != len(set(ms)):
                         report("C13:two-dids-of-one-method", f"subject {sname} event {k}", w)
                     # O2 consecutive versions (schedules where the sweep runs before the next operation on the subject)
-                    if kind in ("plain", "quiet"):
+                    if kind in ("plain", "quiet", "now"):
                         for d in s["dids"]:
                             if d[2] != list(range(len(d[2]))):
                                 report("C13:versions-not-consecutive", f"subject {sname} event {k}: {d[2]}", w)
@@ -159,6 +161,8 @@ def run(ctx):
         for k, (op, o) in enumerate(zip(w["ops"], obs)):
             if o[0] == "hang":
                 report("C13:hang", f"event {k} ({op.get('kind', op['op'])}) did not return within 20 s (fault {w['ops'][k-1].get('fault') if k else None} before it)", w)
+            if o[0].startswith("ok:"):
+                report("C13:create-" + o[0][3:], f"event {k} ({op.get('kind')}): Create returned DIDs that ListDIDs(returned subject) does not list", w)
             if o[0].startswith("panic:"):
                 report("C13:panic", f"event {k} ({op.get('kind', op['op'])}) panicked: {o[0][:120]}", w)
             if o[4] != "ok":
@@ -209,7 +213,7 @@ def run(ctx):
                 return len(re.findall(r"k\d+", d[3]))
             bad_eff = None
             kd, a, b2 = op["kind"], op.get("a", ""), op.get("b", "")
-            if kd == "create":
+            if kd in ("create", "createleg"):
                 if sorted(d[0] for d in sub["dids"]) != sorted(w["methods"]) or any(d[2] != [0] or d[4] != "ok" or nkeys(d) != 1 for d in sub["dids"]):
                     bad_eff = f"create: {sub['dids']}"
             elif not sub["dids"]:
@@ -229,12 +233,26 @@ def run(ctx):
             if bad_eff:
                 report("C13:successful-operation-not-visible-on-every-did", f"event {k}: {bad_eff}", w)
             # P4: a completed operation leaves no change record of its own behind
-            if kind in ("plain", "quiet") and o[1] != obs[k - 1][1]:
+            if kind in ("plain", "quiet", "now") and o[1] != obs[k - 1][1]:
                 report("C13:change-records-left-by-completed-operation", f"event {k} ({kd}): {obs[k - 1][1]} change records before, {o[1]} after", w)
         if kind == "plain":
             last = obs[-1]
             if last[1] != 0:
                 report("C13:changelog-remains-after-sweep", f"{last[1]} change records after a fault-free run and a sweep", w)
+        if kind == "now":
+            # the publish failed (request context cancelled or not) and the caller retried at once: everything from the retry on is as
+            # in the fault-free run, and at the end no change record is left
+            j = int(tag[1])
+            sid = ":".join(tag[2:])
+            pw = plain.get(sid)
+            if w["ops"][j + 1].get("fault", "none") != "none" and pw is not None and all(o is not None for o in pw["obs"]):
+                stats["cut:retry-at-once"] += 1
+                want = [o[0] for o in pw["obs"][1 + j:]]
+                got = [o[0] for o in obs[j + 2:]]
+                if want != got:
+                    report("C13:retry-at-once-differs-from-fault-free-run", f"results from the retry on {got} but {want} without the fault ({w['ops'][j + 1]['kind']}, fault {w['ops'][j + 1].get('fault')})", w)
+            if obs[-1][1] != 0:
+                report("C13:changelog-remains-after-sweep", f"{obs[-1][1]} change records at the end of a retry-at-once run", w)
         if kind == "quiet":
             j = int(tag[1])
             sid = ":".join(tag[2:])
@@ -430,4 +448,4 @@ REQUIRED_DEEP = ["uniform_versions", "versions_consecutive", "versions_consecuti
                  "abandoned_keys_unpublished_partial", "abandoned_keys_unpublished",
                  "create_check_and_write_are_one_step", "non_atomic_create_breaks_subject_unique",
                  "first_transaction_is_atomic", "versions_without_change_records_are_never_rolled_back",
-                 "change_records_name_new_versions"]
+                 "change_records_name_new_versions", "subject_naming_order_independent", "naming_at_visit_depends_on_order"]
